@@ -418,6 +418,16 @@ Theorem C15_collapse_to_base_right_halfcell_merges_cell `{Sig} : forall E n ks p
 Proof. exact halfcell_to_base_inner_mirror. Qed.
 Print Assumptions C15_collapse_to_base_right_halfcell_merges_cell.
 
+Theorem C15_collapse_to_base_right_halfcell_merge_keeps_wf2 `{Sig} : forall E n ks pe e ne c w cnt w' cnt',
+  let q := beta w 2 ne in let p0 := beta w 0 q in let p1 := beta w 1 q in
+  wf2 n w -> pe < n ->
+  NoDup [pe; e; ne; q; p0; p1] -> ~ In 0 [pe; e; ne; q; p0; p1] ->
+  beta w 1 e = pe -> beta w 1 pe = ne -> beta w 1 ne = e -> beta w 2 e = 0 ->
+  run E (collapse_halfcell_to_base n ks pe e ne) c w cnt = (Done tt, w', cnt') ->
+  wf2 n w'.
+Proof. exact halfcell_to_base_inner_mirror_wf. Qed.
+Print Assumptions C15_collapse_to_base_right_halfcell_merge_keeps_wf2.
+
 (** Non-vacuity: in the unit square above (triangles 1 -> 2 -> 3 and 4 -> 5 -> 6 glued along 3 | 4), once the diagonal
     is unsewn -- the store the driver hands to the right half-cell -- the call (b1r, r, b0r) = (5, 4, 6) meets the
     mirrored premises: 4 -> 5 -> 6 -> 4, and 6, 4 and 5 are all 2-free (x = 0). *)
